@@ -206,6 +206,8 @@ class C07(Harness):
                 cs.append({'level': level, 'sort_entries': se, 'sort_paragraphs': sp, 'formatter': fm, 'L': b['lines'], 'indents': b['indents'], 'rich': tier != 'quick' or (se, sp, fm) == (None, None, None),
                            'maxlens': b['maxlens'] if (tier != 'quick' or fm != 'comma-lines') else [None],
                            'name': '%s:%s:%s:%s' % (level, se, sp, fm), 'order': 1})
+        # one more line, plain settings only: room for two comments after the last paragraph, a comment between two fields of the second paragraph, ...
+        cs.append({'level': 'doc', 'sort_entries': None, 'sort_paragraphs': None, 'formatter': None, 'L': b['lines'] + 1, 'indents': [2], 'maxlens': [None], 'rich': False, 'fixed_imm': False, 'name': 'doc-long', 'order': 1})
         cs.append({'level': 'doc-plain', 'sort_entries': None, 'sort_paragraphs': 'first', 'formatter': None, 'L': b['lines'] + (0 if tier == 'quick' else 1), 'indents': [2], 'maxlens': [None], 'name': 'doc-plain', 'order': 0})
         cs.append({'level': 'control', 'sort_entries': None, 'sort_paragraphs': 'control', 'formatter': 'control', 'L': 0, 'indents': b['indents'], 'maxlens': b['maxlens'], 'name': 'control', 'order': 2})
         return cs
@@ -279,7 +281,7 @@ class C07(Harness):
         return pkg + [10] + src, {'swap': True, 'u': [u1, u2], 'd': [d1, d2]}
 
     def run(self, e, case):
-        st = {'indent': case['indents'][e.choose('indent', len(case['indents']))], 'immediate': bool(e.choose('imm', 2)), 'maxlen': case['maxlens'][e.choose('maxlen', len(case['maxlens']))],
+        st = {'indent': case['indents'][e.choose('indent', len(case['indents']))], 'immediate': (bool(e.choose('imm', 2)) if case.get('fixed_imm') is None else case['fixed_imm']), 'maxlen': case['maxlens'][e.choose('maxlen', len(case['maxlens']))],
               'sort_entries': case['sort_entries'], 'sort_paragraphs': case['sort_paragraphs'], 'formatter': case['formatter']}
         if case['level'] == 'control': text, meta = self.control_text(e)
         else: text, kinds = gen_document(e, case['L'], one_paragraph=(case['level'] == 'paragraph'), commas=(case['formatter'] == 'comma-lines'), rich=case.get('rich', True))
